@@ -264,7 +264,34 @@ func genReq(r *prng.R, url string, shapes []shape) string {
 	if !urlSafeForQuery(url) {
 		q = "-" // url.Parse would reject the request URL; keep the query out of it
 	}
+	if q != "-" && r.Chance(35) {
+		return fmt.Sprintf("req %s %s h=%s q=- rq=%s", m, proto.Enc(url), h, proto.Enc(rawQuery(r, q)))
+	}
 	return fmt.Sprintf("req %s %s h=%s q=%s", m, proto.Enc(url), h, q)
+}
+
+// pieces net/url's Query() drops (its error is discarded) or reads in a way a naive split would not
+var oddPieces = []string{
+	"ref=100%zz", "%zz=1", "utm=a;b", ";", "x=%", "y=%4", "%=1", "j=w%", "k=%zz", // dropped: bad escape / semicolon
+	"", "=v", "flag", "a+b=c+d", "x=%41%20", "%6b=v", "k=%76", "k=v=w", "j=", "k=", "z=1", "k=V", // kept, possibly relevant
+}
+
+// the well-formed required pairs `k:v,...` as a raw query string with odd neighbours mixed in
+func rawQuery(r *prng.R, q string) string {
+	var pieces []string
+	for _, it := range strings.Split(q, ",") {
+		kv := strings.SplitN(it, ":", 2)
+		v := kv[1]
+		if v == "%e" {
+			v = ""
+		}
+		pieces = append(pieces, kv[0]+"="+v)
+	}
+	for n := r.Range(1, 3); n > 0; n-- {
+		i := r.Intn(len(pieces) + 1)
+		pieces = append(pieces[:i], append([]string{prng.Pick(r, oddPieces)}, pieces[i:]...)...)
+	}
+	return strings.Join(pieces, "&")
 }
 
 func genRes(r *prng.R, url string) string {
